@@ -42,7 +42,11 @@ var _ uuid.UUID
 //@ spec hless(h heap.Interface, i int, j int) bool = ite(isMin(h), prio(h, i) < prio(h, j), prio(h, j) < prio(h, i))
 //@ spec edgeOK(h heap.Interface, c int) bool = !hless(h, c, (c-1)/2)
 //@ spec heapOK(h heap.Interface, n int) bool = forall c int :: 0 < c && c < n ==> edgeOK(h, c)
-//@ spec itemsOK(h heap.Interface, n int) bool = forall c int :: 0 <= c && c < n ==> qs(h)[c] != nil && !isnan(qs(h)[c].priority)
+// qP is an uninterpreted predicate on items that every queue operation carries along: whatever holds of all items of a queue
+// and of every pushed item holds of all items afterwards and of every popped item. The queue proofs hold for every
+// interpretation of qP; a client fixes one (e.g. "created during this call") to learn that what it pops is something it pushed.
+//@ ufunc qP(*PriorityQueueItem) bool
+//@ spec itemsOK(h heap.Interface, n int) bool = forall c int :: 0 <= c && c < n ==> qs(h)[c] != nil && !isnan(qs(h)[c].priority) && qP(qs(h)[c])
 //@ spec hdyn(h heap.Interface) bool = (isMin(h) || isMax(h)) && h.pay != 0
 //@ spec sameTail(h heap.Interface, n int) bool = true
 
@@ -109,7 +113,7 @@ var _ uuid.UUID
 //@ func container/heap.Push
 //@ props C19
 //@ requires [wf] wfh(h)
-//@ requires [item] istype(x, *PriorityQueueItem) && x.pay != 0 && !isnan(x.(*PriorityQueueItem).priority)
+//@ requires [item] istype(x, *PriorityQueueItem) && x.pay != 0 && !isnan(x.(*PriorityQueueItem).priority) && qP(x.(*PriorityQueueItem))
 //@ ensures [wf] wfh(h)
 //@ ensures [len] len(qs(h)) == old(len(qs(h))) + 1
 //@ ensures [fresh-or-inplace] qs(h).ref == old(qs(h).ref) || fresh(qs(h))
@@ -122,7 +126,7 @@ var _ uuid.UUID
 //@ requires [nonempty] len(qs(h)) > 0
 //@ ensures [wf] wfh(h)
 //@ ensures [len] len(qs(h)) == old(len(qs(h))) - 1
-//@ ensures [root] istype(ret, *PriorityQueueItem) && ret.pay == old(qs(h)[0])
+//@ ensures [root] istype(ret, *PriorityQueueItem) && ret.pay == old(qs(h)[0]) && qP(ret.(*PriorityQueueItem))
 //@ ensures [samearray] qs(h).ref == old(qs(h).ref) && qs(h).off == old(qs(h).off)
 //@ ensures [outside] forall k int :: k >= old(len(qs(h))) ==> qs(h)[k] == old(qs(h)[k])
 //@ modifies cell(h.(*minPriorityQueue)), cell(h.(*maxPriorityQueue)), mem(qs(h))
@@ -145,7 +149,7 @@ var _ uuid.UUID
 //@ func (*utils.priorityQueue).Push
 //@ props C19
 //@ requires [wf] wfpq(pq)
-//@ requires [item] item != nil && !isnan(item.priority)
+//@ requires [item] item != nil && !isnan(item.priority) && qP(item)
 //@ requires [nonneg] !(item.priority < 0)
 //@ ensures [wf] wfpq(pq)
 //@ ensures [len] len(qs(pq.queue)) == old(len(qs(pq.queue))) + 1
@@ -159,7 +163,7 @@ var _ uuid.UUID
 //@ requires [nonempty] len(qs(pq.queue)) > 0
 //@ ensures [wf] wfpq(pq)
 //@ ensures [len] len(qs(pq.queue)) == old(len(qs(pq.queue))) - 1
-//@ ensures [root] ret == old(qs(pq.queue)[0]) && ret != nil
+//@ ensures [root] ret == old(qs(pq.queue)[0]) && ret != nil && qP(ret)
 //@ ensures [extremal] forall k int :: 0 <= k && k < old(len(qs(pq.queue))) ==> old(!hless(pq.queue, k, 0))
 //@ uselemma old rootIsExtremal(pq.queue, len(qs(pq.queue)))
 //@ modifies cell(pq.queue.(*minPriorityQueue)), cell(pq.queue.(*maxPriorityQueue)), mem(qs(pq.queue))
@@ -169,7 +173,7 @@ var _ uuid.UUID
 //@ pure
 //@ requires [wf] wfpq(pq)
 //@ requires [nonempty] len(qs(pq.queue)) > 0
-//@ ensures [root] ret == qs(pq.queue)[0] && ret != nil
+//@ ensures [root] ret == qs(pq.queue)[0] && ret != nil && qP(ret)
 
 //@ func (*utils.priorityQueue).ToSlice
 //@ props C19
@@ -188,7 +192,7 @@ var _ uuid.UUID
 //@ ensures [source-intact] wfpq(pq) && qs(pq.queue) == old(qs(pq.queue)) && forall k int :: qs(pq.queue)[k] == old(qs(pq.queue)[k])
 //@ modifies nothing
 
-//@ spec pushable(items []*PriorityQueueItem) bool = forall i int :: 0 <= i && i < len(items) ==> items[i] != nil && !isnan(items[i].priority) && !(items[i].priority < 0)
+//@ spec pushable(items []*PriorityQueueItem) bool = forall i int :: 0 <= i && i < len(items) ==> items[i] != nil && !isnan(items[i].priority) && !(items[i].priority < 0) && qP(items[i])
 
 //@ func utils.initializePriorityQueue
 //@ props C19
